@@ -7,6 +7,10 @@ pub struct Name { pub id: Ghost<int> }
 pub struct ExprH { pub id: Ghost<int> }
 pub struct BlockH { pub id: Ghost<int> }
 pub struct LocalId { pub g: Ghost<int> }
+pub struct SlotH { pub i: Ghost<int> }
+pub const DYNAMIC: u8 = 0;                                       // ValueType::Dynamic (types are opaque codes here)
+pub uninterp spec fn slot_of(v: &Name) -> int;                   // the scope-table entry lookup finds for this name (innermost declaration)
+pub uninterp spec fn ety(e: int) -> u8;                          // infer_expr_type(e), Dynamic when it has no answer
 '''
 
 MODEL = r'''
@@ -42,13 +46,23 @@ pub struct G {
     pub checked_exprs: Ghost<Set<int>>,          // expressions handed to check_expr
     pub bool_checked: Ghost<Set<int>>,           // ... and to check_boolean_expr
     pub blocks: Ghost<Seq<(int, int)>>,          // (block, loop depth at that moment) for every check_block call, in order
+    pub types: Ghost<Map<int, u8>>,              // the static type recorded in each scope-table entry
 }
 impl G {
     pub uninterp spec fn declared(&self, v: &Name) -> bool;          // lookup_var_info(var) finds it (innermost scope wins: K obligation under C04)
     #[verifier::external_body]
     pub fn lookup_var_info(&self, v: &Name) -> (r: Option<(u8, LocalId)>) ensures r is Some == self.declared(v) { unimplemented!() }
     #[verifier::external_body]
-    pub fn check_expr(&mut self, e: &ExprH) ensures final(self).checked_exprs@ == old(self).checked_exprs@.insert(e.id@), final(self).bool_checked@ == old(self).bool_checked@, final(self).blocks@ == old(self).blocks@, final(self).in_loop == old(self).in_loop { unimplemented!() }
+    pub fn check_expr(&mut self, e: &ExprH) ensures final(self).checked_exprs@ == old(self).checked_exprs@.insert(e.id@), final(self).bool_checked@ == old(self).bool_checked@, final(self).blocks@ == old(self).blocks@, final(self).in_loop == old(self).in_loop, final(self).types@ == old(self).types@, forall|v: &Name| final(self).declared(v) == old(self).declared(v) { unimplemented!() }
+    // the entry of the innermost declaration of the name, as `variable_scopes.iter_mut().rev().find_map(.. .rev().find(name == var))` finds it
+    #[verifier::external_body]
+    pub fn find_slot(&self, v: &Name) -> (r: Option<SlotH>) ensures r is Some == self.declared(v), r is Some ==> r->Some_0.i@ == slot_of(v) { unimplemented!() }
+    #[verifier::external_body]
+    pub fn slot_type(&self, s: &SlotH) -> (r: u8) ensures r == self.types@[s.i@] { unimplemented!() }
+    #[verifier::external_body]
+    pub fn set_slot_type(&mut self, s: &SlotH, t: u8) ensures final(self).types@ == old(self).types@.insert(s.i@, t), final(self).checked_exprs@ == old(self).checked_exprs@, final(self).bool_checked@ == old(self).bool_checked@, final(self).blocks@ == old(self).blocks@, final(self).in_loop == old(self).in_loop { unimplemented!() }
+    #[verifier::external_body]
+    pub fn infer_or_dynamic(&self, e: &ExprH) -> (r: u8) ensures r == ety(e.id@) { unimplemented!() }
     #[verifier::external_body]
     pub fn check_boolean_expr(&mut self, e: &ExprH) ensures final(self).bool_checked@ == old(self).bool_checked@.insert(e.id@), final(self).checked_exprs@ == old(self).checked_exprs@, final(self).blocks@ == old(self).blocks@, final(self).in_loop == old(self).in_loop { unimplemented!() }
     // check_block restores the loop depth it found (its own frame; check_function_body's frame is K:resolver:check_function_body__contract)
@@ -73,8 +87,19 @@ UNIT = VUnit(
               anchor=r"Stmt::AssignExisting \{ var, var_span, expr, \.\. \} =>",
               sig="fn assign_existing(g: &mut G, var: &Name, expr: &ExprH) -> (err: bool)",
               prologue="    let mut e_AssignmentToUndeclared = false;", epilogue="    ;\n    e_AssignmentToUndeclared",
-              ensures=["err == !old(g).declared(var)", "final(g).checked_exprs@.contains(expr.id@)"],
-              rewrites=[CALLS, DROP, Rw("R6", r"self\.emit_error\(\s*\*var_span,\s*SemanticError::(\w+),.*?\}\],\s*\);?", r"{ e_\1 = true; }", min_matches=1)],
+              ensures=["err == !old(g).declared(var)", "final(g).checked_exprs@.contains(expr.id@)",
+                       # no false rejection later (C09): after the assignment the recorded type is the type of the value just assigned, or
+                       # Dynamic; it never stays a type the variable no longer has.  Every other entry is untouched.
+                       "old(g).declared(var) ==> final(g).types@ == (if old(g).types@[slot_of(var)] == ety(expr.id@) { old(g).types@ } else { old(g).types@.insert(slot_of(var), DYNAMIC) })",
+                       "old(g).declared(var) ==> final(g).types@[slot_of(var)] == ety(expr.id@) || final(g).types@[slot_of(var)] == DYNAMIC",
+                       "!old(g).declared(var) ==> final(g).types@ == old(g).types@"],
+              rewrites=[CALLS, DROP, Rw("R6", r"self\.emit_error\(\s*\*var_span,\s*SemanticError::(\w+),.*?\}\],\s*\);?", r"{ e_\1 = true; }", min_matches=1),
+                        Rw("R9", r"self\.infer_expr_type\(expr\)\.unwrap_or\(ValueType::Dynamic\)", "g.infer_or_dynamic(expr)", min_matches=0),
+                        Rw("R9", r"self\s*\.variable_scopes\s*\.iter_mut\(\)\s*\.rev\(\)\s*\.find_map\(\|scope\| scope\.iter_mut\(\)\.rev\(\)\.find\(\|\(name, \.\.\)\| \*name == \*var\)\)", "g.find_slot(var)", min_matches=0),
+                        Rw("R9", r"slot\.1 != assigned", "g.slot_type(&slot) != assigned", min_matches=0),
+                        # Verus has no let-chains: `if let P = E && C { B }` (no else) -> `if let P = E { if C { B } }`
+                        Rw("R10", r"if let (Some\(slot\)) = (g\.find_slot\(var\))\s*&& ([^{]+?)\s*\{(.*?)\n                \}", r"if let \1 = \2 { if \3 {\4\n                } }", min_matches=0),
+                        Rw("R9", r"slot\.1 = ValueType::Dynamic;", "g.set_slot_type(&slot, DYNAMIC);", min_matches=0)],
               real_name="Resolver::check_stmt (Stmt::AssignExisting arm)"),
         # if: the condition is checked and held to the boolean rule, the then-block is checked, and the else-block exactly when there is one,
         # all at the loop depth of the if itself
